@@ -131,7 +131,8 @@ class Watch:
             obj = line.get('object', {})
             self.srv.rec('srv.watch.line', loop=self.session.owner, watch=self.id, res=self.res.plural, type=line['type'],
                          uid=obj.get('metadata', {}).get('uid'), name=obj.get('metadata', {}).get('name'),
-                         rv=_rvint(obj.get('metadata', {}).get('resourceVersion')))
+                         rv=_rvint(obj.get('metadata', {}).get('resourceVersion')),
+                         code=obj.get('code') if line['type'] == 'ERROR' else None)
         return k
 
     def end(self, how: str = 'eof') -> None:
@@ -312,7 +313,7 @@ class FakeSession:
             if self.dead:
                 await self._forever()
             if fault is not None:
-                srv.rec('srv.fault', req=req.id, loop=self.owner, fault=fault.kind, code=fault.code, route=req.route.get('kind'), name=req.route.get('name'), plural=req.route.get('plural'), ns=req.route.get('ns'))
+                srv.rec('srv.fault', req=req.id, loop=self.owner, fault=fault.kind, code=fault.code, route=req.route.get('kind'), name=req.route.get('name'), plural=req.route.get('plural'), ns=req.route.get('ns'), ra=fault.retry_after)
                 if fault.kind == 'conn':
                     raise aiohttp.ClientConnectionError('simulated connection error')
                 if fault.kind == 'timeout':
